@@ -520,6 +520,31 @@ func genC14(env *core.Env, emit func(core.Case)) {
 				}
 			}
 		}
+		// the same question asked again of a resolver with its cache on (the default): within the TTLs the
+		// answer - result or documented error - must be the same every time, whatever was remembered
+		if panicked == "" && i%4 == 0 {
+			crs, cerr := ech.NewResolver(srv.URL())
+			if cerr == nil {
+				for rep := 0; rep < 3 && w == ""; rep++ {
+					func() {
+						defer func() {
+							if rec := recover(); rec != nil {
+								w = fmt.Sprint("repeated Resolve panicked: ", rec)
+							}
+						}()
+						ctx, cancel := context.WithTimeout(context.Background(), 10*time.Second)
+						defer cancel()
+						res2, err2 := crs.Resolve(ctx, input)
+						if c2 := resolveErrClass(err2); c2 != cls {
+							w = fmt.Sprintf("Resolve #%d of the same name on a caching resolver: error class %s, the first answer was %s", rep+1, c2, cls)
+						} else if cls == "-" && resultText(res2) != resultText(res) {
+							w = fmt.Sprintf("Resolve #%d of the same name on a caching resolver returned a different result", rep+1)
+						}
+					}()
+				}
+				srv.TakeLog()
+			}
+		}
 		ops = append(ops, core.Op{Kind: 'X', Note: "RFC 9460 conformance: query names, bounded alias chain without repetition, bounded queries, only data owned by the queried name (or its in-answer CNAME chain), priority order, no panic", Want: w})
 		var shapes []string
 		for k := range z.shape {
